@@ -135,7 +135,7 @@ impl ToTokens for FromMetaImpl<'_> {
                                         __other => ::darling::export::Err(::darling::Error::#unknown_variant_err.with_span(__nested))
                                     }
                                 } else {
-                                    ::darling::export::Err(::darling::Error::unsupported_format("literal"))
+                                    ::darling::export::Err(::darling::Error::unsupported_format("literal").with_span(&__outer[0]))
                                 }
                             }
                             _ => ::darling::export::Err(::darling::Error::too_many_items(1)),
